@@ -5,7 +5,8 @@
 From Coq Require Import ZArith List Bool.
 Import ListNotations.
 From Verif Require Import CallConv.FuncDetailModel CallConv.Abi CallConv.AbiLink CallConv.AbiProofs
-  CallConv.ShuffleModel CallConv.ShuffleProofs CallConv.ShuffleFindings CallConv.ShuffleBytesModel CallConv.ShuffleBytesProofs CallConv.SolverModel CallConv.SolverProofs CallConv.SolverFullModel CallConv.SolverFullProofs CallConv.SolverFullProofs2 CallConv.SolverFullProofs3 CallConv.DecodeModel CallConv.DecodeSpec CallConv.DecodeProofs CallConv.AbiVariadic CallConv.AbiWfProofs.
+  CallConv.ShuffleModel CallConv.ShuffleProofs CallConv.ShuffleFindings CallConv.ShuffleBytesModel CallConv.ShuffleBytesProofs CallConv.SolverModel CallConv.SolverProofs CallConv.SolverFullModel CallConv.SolverFullProofs CallConv.SolverFullProofs2 CallConv.SolverFullProofs3 CallConv.DecodeModel CallConv.DecodeSpec CallConv.DecodeProofs CallConv.DecodeSpecVec CallConv.DecodeVecProofs CallConv.AbiVariadic CallConv.AbiWfProofs.
+From VerifGen Require C06Tables.
 Local Open Scope Z_scope.
 
 (* Part A.  For every target environment e and signature s (any CallConvId, any var-arg index, any return type, up to 32
@@ -205,22 +206,22 @@ Print Assumptions C06_swap_drops_extension_refuted.
    free GP work register exists for stack-to-stack moves and every swap-less group that has register destinations has a work register
    that is not a destination.  On the one-group register fragment the model coincides with SolverModel.solve.  The model is tied to the
    implementation by exact instruction-list equality on every generated assignment of the fragment (check stage part_B_solver_full). *)
-Theorem C06_full_solver_correct : forall a wgp wvec vs0 ms, fwf_inputb wgp wvec vs0 = true -> fsolve a wgp wvec vs0 = SOk ms ->
+Theorem C06_full_solver_correct : forall a wgp wvec vs0 ms, fwf_inputb wgp wvec vs0 = true -> farch_okb a vs0 = true -> fsolve a wgp wvec vs0 = SOk ms ->
   forall st0 v0, In v0 vs0 -> dst_ok (fmove_of v0) (st0 (f_cur v0)) (exec ms st0 (f_out v0)).
 Proof. exact fsolve_correct. Qed.
 Print Assumptions C06_full_solver_correct.
-Theorem C06_full_solver_frame : forall a wgp wvec vs0 ms, fwf_inputb wgp wvec vs0 = true -> fsolve a wgp wvec vs0 = SOk ms ->
+Theorem C06_full_solver_frame : forall a wgp wvec vs0 ms, fwf_inputb wgp wvec vs0 = true -> farch_okb a vs0 = true -> fsolve a wgp wvec vs0 = SOk ms ->
   forall st0 l, ~ In l (map f_out vs0) -> ~ In l (map (Reg 0) wgp) -> ~ In l (map (Reg 1) wvec) -> exec ms st0 l = st0 l.
 Proof. exact fsolve_frame. Qed.
 Print Assumptions C06_full_solver_frame.
-Theorem C06_full_solver_keeps_incoming : forall a wgp wvec vs0 ms, fwf_inputb wgp wvec vs0 = true -> fsolve a wgp wvec vs0 = SOk ms ->
+Theorem C06_full_solver_keeps_incoming : forall a wgp wvec vs0 ms, fwf_inputb wgp wvec vs0 = true -> farch_okb a vs0 = true -> fsolve a wgp wvec vs0 = SOk ms ->
   forall st0 off, exec ms st0 (Mem 0 off) = st0 (Mem 0 off).
 Proof. exact fsolve_keeps_incoming. Qed.
 Print Assumptions C06_full_solver_keeps_incoming.
-Theorem C06_full_solver_terminates : forall a wgp wvec vs0, fwf_inputb wgp wvec vs0 = true -> fsolve a wgp wvec vs0 <> SFuel.
+Theorem C06_full_solver_terminates : forall a wgp wvec vs0, fwf_inputb wgp wvec vs0 = true -> farch_okb a vs0 = true -> fsolve a wgp wvec vs0 <> SFuel.
 Proof. exact fsolve_terminates. Qed.
 Print Assumptions C06_full_solver_terminates.
-Theorem C06_full_solver_total : forall a wgp wvec vs0, fwf_inputb wgp wvec vs0 = true ->
+Theorem C06_full_solver_total : forall a wgp wvec vs0, fwf_inputb wgp wvec vs0 = true -> farch_okb a vs0 = true ->
   ((exists v, In v vs0 /\ is_regl (f_cur v) = false /\ is_regl (f_out v) = false) ->
    exists r, In r wgp /\ ~ In (Reg 0 r) (map f_cur vs0)) ->
   (forall g, (g = 0 \/ g = 1) -> grp_swap a g = false -> (exists v o, In v vs0 /\ f_out v = Reg g o) ->
@@ -231,6 +232,63 @@ Print Assumptions C06_full_solver_total.
 Theorem C06_full_solver_agrees : forall t wgp wvec vs, fsolve (arch_of t) wgp wvec (map emb vs) = solve t wgp vs.
 Proof. exact fsolve_agrees. Qed.
 Print Assumptions C06_full_solver_agrees.
+
+(* Round 5.  Four targets: x86-64, x86-64 with AVX (VEX encodings, YMM / ZMM), 32-bit x86 (no 8-bit view of ESI / EDI: a byte store from
+   them is 32 bits wide), AArch64; farch_okb is what the target adds to fwf_inputb (32-bit: integers up to 4 bytes; 32 / 64-byte vectors
+   only with AVX).  Non-vacuity: executed examples of every target whose outputs the validator accepts.
+   C06_full_solver_spec is the statement at full strength: every emitted instruction is well-formed, every destination is right, nothing
+   else changes. *)
+Theorem C06_full_solver_spec : forall a wgp wvec vs0 ms, fwf_inputb wgp wvec vs0 = true -> farch_okb a vs0 = true -> fsolve a wgp wvec vs0 = SOk ms ->
+  forallb wf_inst ms = true /\
+  forall st0,
+    (forall v0, In v0 vs0 -> dst_ok (fmove_of v0) (st0 (f_cur v0)) (exec ms st0 (f_out v0))) /\
+    (forall l, ~ In l (map f_out vs0) -> ~ In l (map (Reg 0) wgp) -> ~ In l (map (Reg 1) wvec) -> exec ms st0 l = st0 l) /\
+    (forall off, exec ms st0 (Mem 0 off) = st0 (Mem 0 off)).
+Proof. exact fsolve_spec. Qed.
+Print Assumptions C06_full_solver_spec.
+Theorem C06_full_solver_example_avx :
+  fwf_inputb [0;6;7] [0;1;2;3] ex_avx = true /\ farch_okb FX64A ex_avx = true /\ farch_okb FX64 ex_avx = false /\
+  fsolve FX64A [0;6;7] [0;1;2;3] ex_avx =
+  SOk [IExt (Mem 1 32) (Reg 1 2) EZ 256 256 256; IExt (Reg 1 3) (Reg 1 0) EZ 256 256 512; IExt (Reg 1 0) (Reg 1 1) EZ 256 256 512;
+       IExt (Reg 0 6) (Reg 0 7) ES 8 32 64; IExt (Reg 1 1) (Reg 1 3) EZ 256 256 512; IExt (Reg 1 2) (Mem 0 0) EZ 512 512 512].
+Proof. exact ex_avx_solved. Qed.
+Print Assumptions C06_full_solver_example_avx.
+Theorem C06_full_solver_example_x86 :
+  fwf_inputb [1;2;6;7] [0;1] ex_x86 = true /\ farch_okb FX86 ex_x86 = true /\
+  fsolve FX86 [1;2;6;7] [0;1] ex_x86 =
+  SOk [IExt (Reg 0 6) (Mem 0 4) EZ 8 32 64; IExt (Mem 1 0) (Reg 0 6) EZ 32 32 32; IExt (Reg 0 6) (Mem 0 8) ES 8 32 64;
+       IExt (Mem 1 4) (Reg 0 6) EZ 32 32 32; IXchg (Reg 0 2) (Reg 0 1) 32 64; IExt (Reg 0 2) (Reg 0 2) EZ 16 32 64] /\
+  fsolve FX86 [0;1;2;6;7] [0;1] ex_x86 =
+  SOk [IExt (Reg 0 0) (Mem 0 4) EZ 8 32 64; IExt (Mem 1 0) (Reg 0 0) EZ 8 8 8; IExt (Reg 0 0) (Mem 0 8) ES 8 32 64;
+       IExt (Mem 1 4) (Reg 0 0) EZ 32 32 32; IXchg (Reg 0 2) (Reg 0 1) 32 64; IExt (Reg 0 2) (Reg 0 2) EZ 16 32 64].
+Proof. exact ex_x86_solved. Qed.
+Print Assumptions C06_full_solver_example_x86.
+Theorem C06_full_solver_examples_validate :
+  match fsolve FX64 ex_wgp ex_wvec ex_mixed, fsolve FA64 ex_wgp ex_wvec ex_mixed with
+  | SOk m1, SOk m2 =>
+      validate (map fmove_of ex_mixed) (map (Reg 0) ex_wgp ++ map (Reg 1) ex_wvec) m1 &&
+      validate (map fmove_of ex_mixed) (map (Reg 0) ex_wgp ++ map (Reg 1) ex_wvec) m2
+  | _, _ => false
+  end = true.
+Proof. exact ex_mixed_valid. Qed.
+Print Assumptions C06_full_solver_examples_validate.
+(* the scratch conditions of C06_full_solver_total are necessary: well-formed inputs that end in kInvalidState without them *)
+Theorem C06_full_solver_total_conditions_needed :
+  (fwf_inputb ex_wgp [0; 1] ex_mixed = true /\ fsolve FX64 ex_wgp [0; 1] ex_mixed = SErr) /\
+  (fwf_inputb [2; 6; 7] ex_wvec ex_mixed = true /\ fsolve FX64 [2; 6; 7] ex_wvec ex_mixed = SErr).
+Proof. exact (conj ex_mixed_no_vec_scratch ex_mixed_no_gp_scratch). Qed.
+Print Assumptions C06_full_solver_total_conditions_needed.
+
+(* Translator tie (coq/gen/C06Tables.v is regenerated from /repo's source text on every run): the integer conversion tables of the x86 and
+   AArch64 emit_arg_move - TypeId enumerators, the MOVSX / MOVSXD cast pairs, the a64 extension and load switches - and the model's fconv
+   take the same decision for every pair of integer types, register and memory sources, on every target. *)
+Theorem C06_source_cast_tables :
+  forallb (fun a => forallb (fun src => VerifGen.C06Tables.all_pairs (VerifGen.C06Tables.x86_pair_ok a src)) [Reg 0 5; Reg 0 3; Mem 0 24]) [FX64; FX64A; FX86] = true /\
+  forallb (fun src => VerifGen.C06Tables.all_pairs (VerifGen.C06Tables.a64_reg_pair_ok src)) [Reg 0 5; Reg 0 3] = true /\
+  VerifGen.C06Tables.all_pairs VerifGen.C06Tables.a64_mem_pair_ok = true /\
+  map VerifGen.C06Tables.tid VerifGen.C06Tables.int_types = [34; 35; 36; 37; 38; 39; 40; 41].
+Proof. exact (conj VerifGen.C06Tables.x86_cast_table_ok (conj VerifGen.C06Tables.a64_reg_table_ok (conj VerifGen.C06Tables.a64_mem_table_ok VerifGen.C06Tables.int_types_are_34_to_41))). Qed.
+Print Assumptions C06_source_cast_tables.
 
 From Coq Require Import String.
 (* Round 4 (b).  The instruction whitelist of the shuffle validator (DecodeModel.v: llvm-mc's (mnemonic, operands) -> minst), extracted and
@@ -291,3 +349,47 @@ Theorem C06_decode_table_a64 : forall m k d s i, In (m, k) a64_table -> In d (sh
   wf_inst i = true /\ mem_exact i = true.
 Proof. exact table_reflection_realistic_a64. Qed.
 Print Assumptions C06_decode_table_a64.
+
+(* Round 5.  Reference semantics for the NON general-purpose whitelist entries (DecodeSpecVec.v, written from the SDM / Arm ARM: a legacy SSE
+   write keeps bits 511:128, a VEX / EVEX write zeroes up to bit 511, scalar FP / vector writes on AArch64 zero the rest of the V register,
+   movd / movq / movss / movsd / kmov widths): what decode_inst returns executes exactly as the reference says, and nothing else changes. *)
+Theorem C06_decode_vec_reg_sem : forall F sa m rd dw s i sl vex f st,
+  decode_inst F sa m (OReg 1 rd dw) s = Some i -> d_a64 F = false ->
+  assoc isa_x86_vec_value m = Some (vex, f) -> src_loc F sa s = Some sl ->
+  In dw [128;256;512] -> (vex = false -> dw = 128) -> 0 <= st (Reg 1 rd) < 2 ^ 512 ->
+  exec_inst st i (Reg 1 rd) = x86_vec_write vex (st (Reg 1 rd)) dw (f dw (opw s) (st sl)) /\
+  (forall l, l <> Reg 1 rd -> exec_inst st i l = st l).
+Proof. exact decode_vec_reg_sem. Qed.
+Print Assumptions C06_decode_vec_reg_sem.
+Theorem C06_decode_vec_to_gp_sem : forall F sa m g rd dw s i sl f st,
+  decode_inst F sa m (OReg g rd dw) s = Some i -> d_a64 F = false ->
+  assoc isa_x86_vec_to_gp m = Some f -> src_loc F sa s = Some sl ->
+  In g [0;2;3] -> (g = 0 -> In dw [32;64]) -> 0 <= st (Reg g rd) < 2 ^ 64 ->
+  exec_inst st i (Reg g rd) = x86_reg64_write g (st (Reg g rd)) dw (f dw (opw s) (st sl)) /\
+  (forall l, l <> Reg g rd -> exec_inst st i l = st l).
+Proof. exact decode_vec_to_gp_sem. Qed.
+Print Assumptions C06_decode_vec_to_gp_sem.
+Theorem C06_decode_vec_store_sem : forall F sa m b base off g r rw i ml nb st,
+  decode_inst F sa m (OMem b base off) (OReg g r rw) = Some i -> d_a64 F = false ->
+  assoc isa_x86_vec_store m = Some nb -> dst_loc F (OMem b base off) = Some ml ->
+  exec_inst st i ml = cell_write (st ml) (nb rw) (zx (nb rw) (st (Reg g r))) /\
+  (forall l, l <> ml -> exec_inst st i l = st l).
+Proof. exact decode_vec_store_sem. Qed.
+Print Assumptions C06_decode_vec_store_sem.
+Theorem C06_decode_a64_vec_sem : forall F sa m d s i st,
+  decode_inst F sa m d s = Some i ->
+  d_a64 F = true ->
+  (forall rd dw sl f, d = OReg 1 rd dw -> assoc isa_a64_vec_value m = Some f -> src_loc F sa s = Some sl ->
+     0 <= st (Reg 1 rd) < 2 ^ 128 ->
+     exec_inst st i (Reg 1 rd) = a64_vec_write (st (Reg 1 rd)) dw (f dw (opw s) (st sl)) /\
+     (forall l, l <> Reg 1 rd -> exec_inst st i l = st l)) /\
+  (forall rt rw b base off ml nb, d = OReg 1 rt rw -> s = OMem b base off -> assoc isa_a64_vec_store m = Some nb ->
+     dst_loc F s = Some ml ->
+     exec_inst st i ml = cell_write (st ml) (nb rw) (zx (nb rw) (st (Reg 1 rt))) /\
+     (forall l, l <> ml -> exec_inst st i l = st l)).
+Proof. exact decode_a64_vec_sem. Qed.
+Print Assumptions C06_decode_a64_vec_sem.
+(* every non-GP mnemonic of both tables has its reference entries; the merging register form of movss / movsd is refused *)
+Theorem C06_decode_vec_covers_table : forallb vec_class_covered x86_table = true /\ forallb vec_class_covered a64_table = true.
+Proof. exact isa_vec_covers_table. Qed.
+Print Assumptions C06_decode_vec_covers_table.
